@@ -155,6 +155,11 @@ class Obs(aave.Observer):
     def compare(self, w, where, wallet_from=None, touched=()):
         ctx, case = self.ctx, self.case
         r = Ref(w)
+        # what the market says can be repaid at most is the debt itself
+        for n, owed in r.bor_amt.items():
+            got = ctx.guarded("max_repay", case, w.market.get_max_repay_amount, w.tok[n])
+            if got is not None:
+                ctx.check(abs(fr(got) - owed) <= REL * owed + Fraction(1, 10**30), "max_repay.amount", lambda: f"get_max_repay_amount({n}) = {got} but the debt is {float(owed)!r}", case)
         for side, led, got, opened, index in (("supply", self.ms, r.sup_amt, self.opened_s, 0), ("debt", self.md, r.bor_amt, self.opened_d, 1)):
             for n in set(led) | set(got):
                 exp = led.get(n, Fraction(0))
